@@ -574,6 +574,81 @@ class World:
         self.check_pool(op, set(), err is not None, {h})
         return {"raised": type(err).__name__ if err else None}
 
+    # -- Vector methods on a pool column (C06 covers Vector too) ------------------------
+
+    def op_vec(self, op):
+        h = op["t"]
+        f = self.frames[h]
+        name = op["name"]
+        if name not in f:
+            return {"raised": "skip"}
+        col = dict.__getitem__(f, name)
+        m = op["method"]
+        args = op.get("args", {})
+
+        def call():
+            if m == "concat":
+                o = self.frames.get(op.get("other"))
+                other = dict.__getitem__(o, op["other_name"]) if o is not None and op.get("other_name") in o else col
+                return col.concat(other)
+            if m == "equal":
+                return col.equal(col)
+            if m == "sample":
+                np.random.seed(args.get("rseed", 0))
+                return col.sample(args.get("n"))
+            if m == "map":
+                return col.map(lambda x: x)
+            if m == "replace_na":
+                return col.replace_na(col.na_value if args.get("same") else self.vec_fill(col))
+            return getattr(col, m)(**{k: v for k, v in args.items() if k != "rseed"})
+        try:
+            res, err = call(), None
+        except Exception as e:
+            res, err = None, e
+        if err is None and isinstance(res, np.ndarray):
+            if res is col:
+                self.viol("C06", "alias", f"C06.alias|Vector.{m}|returned-the-receiver", f"Vector.{m} returned self")
+            else:
+                hit = None
+                for h2 in sorted(self.frames):
+                    if h2 in self.broken:
+                        continue
+                    f2 = self.frames[h2]
+                    for n2 in dict.keys(f2):
+                        c2 = dict.__getitem__(f2, n2)
+                        if np.may_share_memory(res, c2) and np.shares_memory(res, c2):
+                            hit = (h2, n2)
+                            break
+                    if hit:
+                        break
+                if hit:
+                    self.viol("C06", "alias", f"C06.alias|Vector.{m}|result-shares-memory-with-receiver",
+                              f"Vector.{m}({args}) on F{h}[{name!r}] ({col.dtype}) returned an array sharing "
+                              f"memory with F{hit[0]}[{hit[1]!r}]")
+                # the "later in-place edit" on the result must not be observable in the pool
+                if res.ndim == 1 and len(res) and res.flags.writeable and res.dtype == col.dtype:
+                    try:
+                        res[0] = res[-1] if len(res) > 1 else res[0]
+                        res[...] = res[::-1].copy()
+                    except Exception:
+                        pass
+        before = len(self.violations)
+        self.check_pool(op, set(), err is not None, {h})
+        for v in self.violations[before:]:
+            if v["property"] == "C06":
+                v["sig"] = v["sig"].replace("|vec|", f"|Vector.{m}|")
+        return {"raised": type(err).__name__ if err else None, "cls": m}
+
+    def vec_fill(self, col):
+        k = col.dtype.kind
+        if k == "f":
+            return 0.5
+        if k == "M":
+            return np.datetime64("2001-01-01")
+        if k in "TU":
+            return "fill"
+        return 0
+
     # -- structural ops with a C09 reference ------------------------------------------
 
     def tokens(self, h):
@@ -1177,15 +1252,17 @@ class Gen:
             "struct": ["select", "unselect", "rename", "modify", "cbind", "rbind", "update"],
             "rel": ["join", "aggregate", "count", "split", "map"],
             "copy": ["copy", "deepcopy", "clear", "convert"],
+            "vector": ["vec"],
             "inplace": ["setitem", "setitem", "delete", "pop", "popitem", "set_colnames",
                         "group_by", "elem_write", "elem_write"],
             "render": ["render"],
         }
-        weights = {"rows": 3, "struct": 3, "rel": 1.5, "copy": 1.5, "inplace": 4, "render": 1}
+        weights = {"rows": 3, "struct": 3, "rel": 1.5, "copy": 1.5, "inplace": 4, "render": 1,
+                   "vector": 0.5}
         if prop == "C01":
             weights.update(inplace=6, struct=3, rows=2)
         elif prop == "C06":
-            weights.update(rows=5, struct=4, rel=3, copy=3, inplace=4)
+            weights.update(rows=5, struct=4, rel=3, copy=3, inplace=4, vector=5)
         elif prop == "C09":
             weights.update(struct=9, inplace=4, rows=1, rel=0.5)
         elif prop == "C20":
@@ -1636,6 +1713,36 @@ class Gen:
         op["name"] = r.choice(cols)
         op["index"] = r.randrange(12)
         op["value"] = self.elem_value(dict.__getitem__(self.frame(h), op["name"]))
+        return op
+
+    def g_vec(self):
+        op = self.base("vec", nonempty=True, out=False)
+        r = self.rng
+        h = op["t"]
+        cols = self.cols_of(h)
+        if not cols:
+            return self.g_setitem()
+        op["name"] = r.choice(cols)
+        m = r.choice(["as_boolean", "as_float", "as_integer", "as_object", "as_string", "as_date",
+                      "as_datetime", "as_bytes", "concat", "drop_na", "head", "tail", "sample", "sort",
+                      "rank", "unique", "replace_na", "map", "range", "tolist", "to_strings", "equal",
+                      "is_na", "copy"])
+        op["method"] = m
+        n = self.frame(h).nrow
+        if m in ("head", "tail"):
+            op["args"] = {"n": r.choice([0, 1, n, n + 2, None])}
+        elif m == "sample":
+            op["args"] = {"n": r.choice([0, 1, n, None]), "rseed": r.randrange(10 ** 6)}
+        elif m == "sort":
+            op["args"] = {"dir": r.choice([1, -1])}
+        elif m == "rank":
+            op["args"] = {"method": r.choice(["min", "max", "ordinal"])}
+        elif m == "replace_na":
+            op["args"] = {"same": r.random() < 0.3}
+        elif m == "concat":
+            op["other"] = self.pick()
+            oc = self.cols_of(op["other"])
+            op["other_name"] = r.choice(oc) if oc else None
         return op
 
     def g_render(self):
